@@ -163,16 +163,48 @@ class IterFrac(Op):
             eighths = rng.choice([1, 2, 3, 4, 5, 7, 9, 12, 20, 8 * 60 + 1, 8 * 3600 + 4])
             reps = rng.choice([2, 3, 4, 5, 9])
             yield (m, anchor, eighths, reps, rng.choice([3, 4]))
+        # the same with the fraction on the MINUTES or HOURS of the interval (PT7,5M, PT0,5M, PT1H2,5M, PT0,25H),
+        # anchors near the top of an hour / of a day so that walking back borrows across it
+        for _ in range(n):
+            m = gens.mode(rng)
+            anchor = R.gen_anchor(rng, m)
+            t = list(T.tp_from_inst(m, T.inst(m, anchor), anchor[0], anchor[7], anchor[8]))
+            if rng.random() < 0.7:
+                t[4] = rng.choice([0, 0, 6, 23])
+                t[5] = rng.choice([0, 1, 5, 10, 59])
+                t[6] = rng.choice([0, 0, 30])
+            unit = rng.choice(["m", "m", "h", "hm"])
+            eighths = rng.choice([4, 12, 20, 60, 2, 1, 36, 100, 8 * 7 + 4, 8 * 61 + 4])
+            yield (m, tuple(t), eighths, rng.choice([2, 3, 4, 5, 9]), rng.choice([3, 4, 4]), unit)
+
+    UNIT_S = {"s": 1, "m": 60, "h": 3600, "hm": 60}
 
     def line(self, a):
-        return "riterfrac %s %s %d/8 s x%d fmt%d" % (a[0], T.tp_str(a[1]), a[2], a[3], a[4])
+        unit = a[5] if len(a) > 5 else "s"
+        return "riterfrac %s %s %d/8 %s x%d fmt%d" % (a[0], T.tp_str(a[1]), a[2], unit, a[3], a[4])
+
+    def interval(self, a):
+        from metomi.isodatetime.data import Duration
+        unit = a[5] if len(a) > 5 else "s"
+        if unit == "s":
+            return Duration(seconds=a[2] / 8.0)
+        if unit == "m":
+            return Duration(minutes=a[2] / 8.0)
+        if unit == "h":
+            return Duration(hours=a[2] / 8.0)
+        return Duration(hours=1, minutes=a[2] / 8.0)
+
+    def step_seconds(self, a):
+        from fractions import Fraction
+        unit = a[5] if len(a) > 5 else "s"
+        return Fraction(a[2], 8) * self.UNIT_S[unit] + (3600 if unit == "hm" else 0)
 
     def impl(self, a):
         from fractions import Fraction
         from metomi.isodatetime.data import TimeRecurrence, Duration
-        m, anchor, eighths, reps, fmt = a
+        m, anchor, eighths, reps, fmt = a[:5]
         set_mode(m)
-        d = Duration(seconds=eighths / 8.0)
+        d = self.interval(a)
         p = T.mk_tp(anchor)
         rec = TimeRecurrence(repetitions=reps, start_point=p, duration=d) if fmt == 3 else \
             TimeRecurrence(repetitions=reps, duration=d, end_point=p)
@@ -190,17 +222,19 @@ class IterFrac(Op):
 
     def oracle(self, a, out):
         from fractions import Fraction
-        m, anchor, eighths, reps, fmt = a
+        m, anchor, eighths, reps, fmt = a[:5]
         if out.startswith(("err", "EXC", "Timeout")):
             return "%s failed: %s" % (self.line(a), out)
-        step = Fraction(eighths, 8)
+        step = self.step_seconds(a)
         want = [step * k for k in range(reps)] if fmt == 3 else [-step * (reps - 1 - k) for k in range(reps)]
         exp = "%d %s" % (reps, " ".join(str(x) for x in want))
         if out != exp:
             return "%s: yields (count, offsets from the anchor in s) %s; the series is %s" % (self.line(a), out, exp)
 
     def label(self, a):
-        return "riterfrac/%s/fmt%d/%s" % (a[0], a[4], "sub-second" if a[2] < 8 else "fractional")
+        unit = a[5] if len(a) > 5 else "s"
+        return "riterfrac/%s/fmt%d/%s" % (a[0], a[4], ("sub-second" if a[2] < 8 else "fractional") if unit == "s"
+                                          else "fraction-on-" + unit)
 
 
 def defect_series(m, info, k):
